@@ -358,7 +358,8 @@ class Consumer(object):
         def _handle_shutdown_commit_failure(failure):
             """Handle failure of commit() attempted by shutdown"""
             if failure.check(OperationInProgress):
-                failure.value.deferred.addCallback(_commit_and_stop)
+                # Whatever becomes of the commit in flight, try ours after it
+                failure.value.deferred.addBoth(_commit_and_stop)
                 return
 
             self._shutdown_d, d = None, self._shutdown_d
